@@ -145,7 +145,9 @@ def run(tier, seed, t0):
             same_schema = uid in cont and cont[uid] == cont[tid]
             if tid == uid:
                 ref = vd.get(k.split('>')[0] + 'd')
-                if ref is not None and ref.startswith('ok ') and a != 'ok ' + ref[3:].rsplit(' ', 1)[0]:
+                if ref is None or not ref.startswith('ok '):
+                    disagreements.append({'what': 'no reference decode of the value bytes of %s %s: %s [%s]' % (rust(t), repr_, ref, cfg)})
+                elif a != 'ok ' + ref[3:].rsplit(' ', 1)[0]:
                     failures.append({'class': 'ws-roundtrip', 'key': '%s %s' % (sexp(t), repr_),
                                      'what': 'try_from_slice_with_schema(try_to_vec_with_schema(v)) != v: type %s value %s -> %s [%s]' % (rust(t), repr_, a, cfg),
                                      'type': sexp(t), 'value': repr_, 'bytes': h, 'result': a})
